@@ -14,6 +14,21 @@ The model is faithful to the code.  3-D cubes whose table dimension has a missin
 a valid one were the genuine defect C16-3d-baseline-wrong-table (baseline taken from the wrong
 table), repaired in /repo; 35% of the generated 3-D cases have that shape and (a) and (b) must
 both agree on them (theorem C16_former_witness is the minimal one, run first).
+
+  (d) DISPLAY TRANSFORMS (added after seeded change C16-6: `_CatXMrUnconditionalCubeCounts.baseline`
+      summed the table margin over the rows that are not hidden, which no case could show because no
+      case hid anything).  The property defines the baseline as the row element's share of ALL
+      respondents eligible for it and does not mention the display: a hidden / pruned / reordered row or
+      column is still an element of the table and its respondents still count.  `gen_display_case`
+      draws CAT/MR x CAT/MR slices - all four pairings in turn, 2-D and 3-D (CAT or MR table
+      dimension), half of them with subtotal insertions, 60% with heavy uneven column missingness -
+      and per-dimension display transforms: `hide` flags (65% of the cases force one on a POPULATED row
+      element; keys are ids or MR item aliases), explicit orders (permutation / subset / stale id), prune.
+      The cube is built (A) without and (B) with them and every displayed cell of (B).column_index must
+      equal  (a) for a base cell (row_order()[i] >= 0, column_order()[j] >= 0) the model's value and
+      the respondent-level value of THAT base cell, whose baseline is computed from all rows; NaN for an
+      inserted subtotal;  (b) relationally, the cell of (A).column_index that (B)'s own row_order() /
+      column_order() point at.  Distribution keys `display:*`.
 """
 import json
 import random
@@ -150,6 +165,249 @@ def run_subtotal_case(case):
     return fails, n
 
 
+# (d) display transforms --------------------------------------------------------------
+
+PAIRINGS = [("cat", "cat"), ("cat", "mr"), ("mr", "cat"), ("mr", "mr")]
+
+
+def _display_var(rng, alias, kind, small):
+    if kind == "mr":
+        return gen.make_mr(rng, alias, n_items=rng.randint(2, 3))
+    return gen.make_cat(rng, alias, n_valid=rng.randint(2, 3 if small else 4),
+                        n_missing=rng.choice([0, 1, 1, 2]), missing_anywhere=True, numeric=None,
+                        date=(rng.random() < 0.15))
+
+
+def populated_elements(sv, v):
+    """positions (among the VALID elements) of the elements of v that have a respondent"""
+    if v.kind == "mr":
+        return [e for e in range(len(v.items))
+                if any(r["ans"][v.alias][e] == gen.SEL for r in sv.resp)]
+    valid = cu.valid_positions([bool(c["missing"]) for c in v.cats])
+    return [e for e, p in enumerate(valid) if any(r["ans"][v.alias] == p for r in sv.resp)]
+
+
+def dim_display(rng, v, populated, force_hide):
+    """hide flags / explicit order / prune for the dimension of variable v (keys are strings: category
+    / item ids, or item aliases, so that a replay read back from JSON is the same dict)"""
+    if v.kind == "mr":
+        ids = [it["id"] for it in v.items]
+        keys = [rng.choice([str(it["id"]), it["alias"]]) for it in v.items]
+    else:
+        ids = gen.valid_cat_ids(v)
+        keys = [str(i) for i in ids]
+    t = {}
+    r = rng.random()
+    p_hide = 0.0 if r < 0.25 else 0.3 if r < 0.8 else 0.6
+    hidden = set(e for e in range(len(ids)) if rng.random() < p_hide)
+    if force_hide and populated:
+        hidden.add(rng.choice(populated))
+    if hidden:
+        t["elements"] = {keys[e]: {"hide": True} for e in sorted(hidden)}
+    if rng.random() < 0.45 and ids:
+        x = rng.random()
+        if x < 0.4:
+            listed = rng.sample(ids, len(ids))
+        elif x < 0.8:
+            listed = rng.sample(ids, rng.randint(0, len(ids)))
+        else:
+            listed = rng.sample(ids, rng.randint(0, len(ids))) + [999]
+            rng.shuffle(listed)
+        t["order"] = {"type": "explicit", "element_ids": listed}
+    if rng.random() < 0.4:
+        t["prune"] = True
+    return t
+
+
+def gen_display_case(rng, k):
+    """CAT/MR x CAT/MR slice (2-D, or 3-D under a CAT / MR table dimension), with or without subtotal
+    insertions, plus display transforms (hide / explicit order / prune) on rows and columns."""
+    pair = PAIRINGS[k % 4] if rng.random() < 0.8 else rng.choice(PAIRINGS)
+    three_d = rng.random() < 0.4
+    vs = []
+    if three_d:
+        vs.append(cu.make_var(rng, "v0", rng.choice(["cat", "cat", "mr"]), small=True))
+    for kd in pair:
+        vs.append(_display_var(rng, "v%d" % len(vs), kd, three_d))
+    if three_d and rng.random() < 0.35 and vs[0].kind == "cat" and len(vs[0].cats) >= 2:
+        vs[0].cats[0]["missing"] = True
+        vs[0].cats[-1]["missing"] = False
+        for c in vs[0].cats:
+            if c["missing"]:
+                c["numeric_value"] = None
+    subtotals = rng.random() < 0.5
+    if subtotals:
+        for v in vs[-2:]:
+            if v.kind in ("cat", "cat_date"):
+                v.view_insertions = gen.random_insertions(rng, v, max_n=2, stale=False)
+    sv = gen.Survey(vs, rng.choice([4, 8, 15, 25]), rng)
+    heavy = rng.random() < 0.6
+    if heavy:
+        rowv, colv = vs[-2], vs[-1]
+        for r in sv.resp:
+            skew = 0.7
+            if rowv.kind in ("cat", "cat_date"):
+                skew = 0.15 + 0.8 * (r["ans"][rowv.alias] % 2)
+            if rng.random() < skew:
+                if colv.kind == "mr":
+                    r["ans"][colv.alias] = [gen.MIS if rng.random() < 0.7 else s
+                                            for s in r["ans"][colv.alias]]
+                else:
+                    miss = [n for n, c in enumerate(colv.cats) if c["missing"]]
+                    if miss:
+                        r["ans"][colv.alias] = rng.choice(miss)
+    display = {}
+    force_row_hide = rng.random() < 0.65
+    for key, v, force in (("rows_dimension", vs[-2], force_row_hide),
+                          ("columns_dimension", vs[-1], rng.random() < 0.2)):
+        t = dim_display(rng, v, populated_elements(sv, v), force)
+        if t:
+            display[key] = t
+    case = {"k": k, "shape_class": "display", "survey": cu.survey_to_json(sv),
+            "aliases": [v.alias for v in vs], "perm": None, "measures": ["count"], "numvar": None,
+            "valid_counts": False, "unavailable": [], "mask_size": 0, "ca_as_0th": False,
+            "display_leg": True, "display": display, "heavy": heavy, "subtotals": subtotals}
+    cu.finish_case(case)
+    return case
+
+
+def _read_partition(p):
+    out = {n: impl.get(p, n) for n in ("column_index", "row_order", "column_order")}
+    out["dims"] = impl.guarded(lambda: impl.dims_info(p))
+    return out
+
+
+def build_display(case):
+    """(A) the partitions without display transforms, (B) the same with them; the model's slices."""
+    io = {}
+    for tag, tr in (("A", None), ("B", case["display"] or None)):
+        res = impl.guarded(lambda tr=tr: impl.cube(case["response"], transforms=tr).partitions)
+        if res[0] != "ok":
+            return {"error": res}, []
+        io[tag] = [_read_partition(p) for p in res[1]]
+    terms = [t for t in cu.model_terms(case) if t[0] == "slices"]
+    return io, terms
+
+
+def _pyidx(z, n):
+    return z if z >= 0 else n + z
+
+
+def compare_display(case, io, terms, results):
+    """every displayed cell of (B): (a) base cell = the model's / the survey oracle's value of the base
+    cell (row_order, column_order)[cell] points at, whose baseline counts ALL rows of the table; an
+    inserted subtotal = NaN; (b) = the cell of (A) the displayed partition's own orders point at."""
+    if "error" in io:
+        return [{"what": "exception", "impl": io["error"][1:]}]
+    fails = []
+    sv = case["_sv"]
+    oracle = cu.Oracle(sv, case["_axes"])
+    model = None
+    for (_kind, _t), toks in zip(terms, results):
+        model = cu.dec_cube_slices(toks)
+    if model is None or len(model) != len(io["A"]) or len(io["A"]) != len(io["B"]):
+        return [{"what": "n_partitions", "impl": [len(io["A"]), len(io["B"])],
+                 "model": None if model is None else len(model)}]
+    case["_undisplayed"] = []
+    for k, (A, B) in enumerate(zip(io["A"], io["B"])):
+        roi = rank_is_offset(case, k)
+        bad = {n: v[1:] for tag, P in (("A", A), ("B", B)) for n, v in P.items() if v[0] != "ok"}
+        if bad:
+            fails.append({"what": "column_index:display-read", "part": k, "impl": bad})
+            continue
+        if A["dims"][1] != B["dims"][1]:
+            fails.append({"what": "column_index:display-dims-differ", "part": k,
+                          "impl": [A["dims"][1], B["dims"][1]]})
+            continue
+        nr, nrs, nc, ncs = A["dims"][1]
+        nR, nC = nr + nrs, nc + ncs
+        full = [[None] * nC for _ in range(nR)]
+        a = impl.tolist(A["column_index"][1])
+        for di, r in enumerate(A["row_order"][1]):
+            for dj, c in enumerate(A["column_order"][1]):
+                full[_pyidx(int(r), nR)][_pyidx(int(c), nC)] = a[di][dj]
+        if any(x is None for row in full for x in row):
+            fails.append({"what": "column_index:untransformed-order-incomplete", "part": k,
+                          "impl": [impl.tolist(A["row_order"][1]), impl.tolist(A["column_order"][1])]})
+            continue
+        mod = model[k]["column_index"]
+        if mod is None:
+            fails.append({"what": "column_index:model-undefined", "part": k})
+            continue
+        exp = expected_index(oracle, k, sv.weighted)
+        # the base block of (A) against model and survey (as in leg (a)/(b), here with insertions)
+        baseA = [row[:nc] for row in full[:nr]]
+        for orc, want in (("model", mod), ("survey", exp)):
+            d = cu.mat_mismatch(baseA, want, "column_index")
+            if d and nr and nc:
+                fails.append(dict(d, part=k, oracle=orc, rank_is_offset=roi))
+        ro = [int(z) for z in B["row_order"][1]]
+        co = [int(z) for z in B["column_order"][1]]
+        case["_undisplayed"].append(([i for i in range(nr) if i not in ro],
+                                     [j for j in range(nc) if j not in co], ro, co, nr, nc))
+        b = impl.tolist(B["column_index"][1])
+        info = {"part": k, "row_order": ro, "column_order": co, "display": case["display"],
+                "rank_is_offset": roi}
+        if len(b) != len(ro) or any(len(row) != len(co) for row in b):
+            fails.append(dict(info, what="column_index.displayed:shape", oracle="untransformed",
+                              impl_shape=[len(b), len(b[0]) if b else 0]))
+            continue
+
+        def want_of(which, r, c):
+            if which == "untransformed":
+                return core.to_exact(full[_pyidx(r, nR)][_pyidx(c, nC)])
+            if r < 0 or c < 0:
+                return "nan"
+            return (mod if which == "model" else exp)[r][c]
+
+        for which in ("model", "survey", "untransformed"):
+            hit = None
+            for di, r in enumerate(ro):
+                for dj, c in enumerate(co):
+                    want = want_of(which, r, c)
+                    if not core.close(b[di][dj], want):
+                        hit = dict(info, what="column_index.displayed", oracle=which, cell=[di, dj],
+                                   signed=[r, c], impl=b[di][dj], expected=want)
+                        break
+                if hit:
+                    break
+            if hit:
+                fails.append(hit)
+    return fails
+
+
+def describe_display(rep, case):
+    rep.dist("display:case")
+    cp = cu.class_pair(case)
+    rep.dist("display:class=" + cp)
+    ap = [a for a in case["_axes"] if a["role"] != "mr_sel"]
+    rep.dist("display:%dd" % len(ap))
+    rep.dist("display:with-subtotal-insertions" if case.get("subtotals") else "display:no-insertions")
+    for key, t in (case.get("display") or {}).items():
+        ax = "rows" if key == "rows_dimension" else "columns"
+        if "elements" in t:
+            rep.dist("display:hide-" + ax)
+        if "order" in t:
+            rep.dist("display:explicit-order-" + ax)
+        if t.get("prune"):
+            rep.dist("display:prune-" + ax)
+    sv = case["_sv"]
+    vs = [sv.var(a) for a in case["aliases"]]
+    pop_r, pop_c = populated_elements(sv, vs[-2]), populated_elements(sv, vs[-1])
+    und = case.get("_undisplayed") or []
+    if any(set(gr) & set(pop_r) for gr, _gc, _ro, _co, _nr, _nc in und):
+        rep.dist("display:undisplayed-populated-base-row")
+        rep.dist("display:undisplayed-populated-base-row:" + cp.split("|")[0])
+    if any(set(gc) & set(pop_c) for _gr, gc, _ro, _co, _nr, _nc in und):
+        rep.dist("display:undisplayed-populated-base-column")
+    if any([z for z in ro if z >= 0] != sorted(z for z in ro if z >= 0) or
+           [z for z in co if z >= 0] != sorted(z for z in co if z >= 0)
+           for _gr, _gc, ro, co, _nr, _nc in und):
+        rep.dist("display:base-elements-reordered")
+    if any(z < 0 for _gr, _gc, ro, co, _nr, _nc in und for z in ro + co):
+        rep.dist("display:displayed-subtotal-vector")
+
+
 def witness_case():
     """The minimal response of finding C16-3d-baseline-wrong-table (Props/C16.v c16_witness)."""
     def catvar(alias, flags):
@@ -206,6 +464,16 @@ def run(tier, seed):
         ios.append(io)
         allterms.append(terms)
         flat.extend(t for (_k, t) in terms)
+    # (d) display transforms: own PRNG, so that the stream of the cases above is unchanged
+    n_disp_cases = 120 if tier == "quick" else 2000
+    drng = random.Random(seed * 7919 + 166)
+    dcases = [gen_display_case(drng, k) for k in range(n_disp_cases)]
+    dios, dterms = [], []
+    for case in dcases:
+        io, terms = build_display(case)
+        dios.append(io)
+        dterms.append(terms)
+        flat.extend(t for (_k, t) in terms)
     results, coq_s = core.run_coq_cases(PID, cu.IMPORTS, flat, shard=60) if flat else ([], 0.0)
     pos = 0
     for case, io, terms in zip(cases, ios, allterms):
@@ -223,6 +491,19 @@ def run(tier, seed):
                    "rank_is_offset": f.get("rank_is_offset")}
             rep.violation("impl-vs-model" if f.get("oracle") != "survey" else "impl-vs-survey",
                           cu.replayable(case), f, ctx)
+    for case, io, terms in zip(dcases, dios, dterms):
+        res = results[pos:pos + len(terms)]
+        pos += len(terms)
+        fails = compare_display(case, io, terms, res)
+        rep.count_case(cu.replayable(case), len(case["_sv"].resp) > 0 and bool(case["display"]))
+        describe_display(rep, case)
+        ap = [a for a in case["_axes"] if a["role"] != "mr_sel"]
+        for f in fails:
+            ctx = {"what": f.get("what"), "oracle": f.get("oracle"), "ndim": len(ap),
+                   "rank_is_offset": f.get("rank_is_offset")}
+            kind = {"survey": "impl-vs-survey", "untransformed": "impl-displayed-vs-untransformed"}.get(
+                f.get("oracle"), "impl-vs-model")
+            rep.violation(kind, cu.replayable(case), f, ctx)
     n_subtotals = 0
     for k in range(n_sub_cases):
         case = gen_subtotal_case(rng, k)
@@ -237,7 +518,15 @@ def run(tier, seed):
         "0..30 respondents over cat / cat_date / mr / enum (and a few array) variables, 2-D and 3-D, "
         "weighted (dyadic, zero) or not, 60% with heavy column missingness skewed by row, 35% of the 3-D "
         "cases with a missing table category before a valid one; plus CAT/MR slices with subtotal "
-        "insertions (NaN check). non-trivial = at least one respondent; distinct by content hash")
+        "insertions (NaN check); plus (own PRNG) CAT/MR x CAT/MR slices of 4..25 respondents - the four "
+        "pairings in turn, 40% 3-D, 50% with subtotal insertions, 60% heavy missingness - each built without "
+        "and with display transforms (per dimension: hide flags on 0/30/60% of the elements, on a populated row "
+        "element in 65% of the cases; explicit order 45%; prune 40%): every displayed cell against model, "
+        "respondent-level oracle (baseline over ALL rows) and the untransformed column_index re-indexed by the "
+        "displayed partition's own row_order()/column_order(). "
+        "non-trivial = at least one respondent (display cases: and a non-empty display dict); distinct by "
+        "content hash")
+    rep.cov["display_cases"] = n_disp_cases
     rep.cov["coq_eval_seconds"] = round(coq_s, 2)
     rep.cov["model_terms_evaluated"] = len(flat)
     rep.cov["subtotal_vectors_checked"] = n_subtotals
@@ -263,7 +552,11 @@ def replay(path):
         return core.replay_obligations(PID, d)
     case = d["violation"]["case"]
     cu.finish_case(case)
-    if case.get("subtotals"):
+    if case.get("display_leg"):
+        io, terms = build_display(case)
+        results, _ = core.run_coq_cases(PID, cu.IMPORTS, [t for (_k, t) in terms], tag="replay")
+        fails = compare_display(case, io, terms, results)
+    elif case.get("subtotals"):
         fails, _ = run_subtotal_case(case)
     else:
         io, terms = build(case)
